@@ -519,9 +519,7 @@ class io_uring_context::read_sender {
         return;
       }
       self.stopCallback_.destruct();
-      if (get_stop_token(self.receiver_).stop_requested()) {
-        unifex::set_done(std::move(self.receiver_));
-      } else if (self.result_ >= 0) {
+      if (self.result_ >= 0) {
         if constexpr (noexcept(unifex::set_value(
                           std::move(self.receiver_), ssize_t(self.result_)))) {
           unifex::set_value(std::move(self.receiver_), ssize_t(self.result_));
@@ -721,9 +719,7 @@ class io_uring_context::write_sender {
         return;
       }
       self.stopCallback_.destruct();
-      if (get_stop_token(self.receiver_).stop_requested()) {
-        unifex::set_done(std::move(self.receiver_));
-      } else if (self.result_ >= 0) {
+      if (self.result_ >= 0) {
         if constexpr (noexcept(unifex::set_value(
                           std::move(self.receiver_), ssize_t(self.result_)))) {
           unifex::set_value(std::move(self.receiver_), ssize_t(self.result_));
@@ -1231,9 +1227,7 @@ class io_uring_context::accept_sender {
         return;
       }
       self.stopCallback_.destruct();
-      if (get_stop_token(self.receiver_).stop_requested()) {
-        unifex::set_done(std::move(self.receiver_));
-      } else if (self.result_ >= 0) {
+      if (self.result_ >= 0) {
         if constexpr (noexcept(unifex::set_value(
                           std::move(self.receiver_),
                           async_read_write_file{
